@@ -222,6 +222,38 @@ func scCookie(r *Run) {
 			}
 		}
 		r.Logf("ack variant %d (%s) answered=%v", variant, what, len(o.saFor) != before)
+		// while the handshake of that address is pending: further acknowledgements from the SAME address
+		// whose cookie is not theirs (each is judged by the ServerAuth oracle above like any other)
+		if variant == 0 && len(o.saFor) != before && r.Intn("ack", 2) == 0 {
+			for f := 0; f < 1+r.Intn("ack", 3); f++ {
+				var bogus []byte
+				fwhat := ""
+				switch r.Intn("ack", 4) {
+				case 0:
+					c2 := append([]byte(nil), cookie...)
+					c2[r.Intn("ack", len(c2))] ^= byte(1 + r.Intn("ack", 255))
+					bogus, err = transport.VerifAdvClientAck(kp, k, c2, name)
+					fwhat = "cookie bytes altered"
+				case 1:
+					bogus, err = transport.VerifAdvClientAck(kp, k, make([]byte, len(cookie)), name)
+					fwhat = "all-zero cookie"
+				case 2:
+					other := atkKeys[(1+indexOfKey(atkKeys, kp))%3]
+					bogus, err = transport.VerifAdvClientAck(other, k, cookie, name)
+					fwhat = "other client KEM key"
+				default:
+					bogus = r.Bytes("ack", len(ca))
+					bogus[0], bogus[1], bogus[2], bogus[3] = 0x03, 0, 0, 0
+					fwhat = "random bytes of the right length"
+				}
+				if err != nil || bogus == nil {
+					continue
+				}
+				n.Inject(from, srvAddr, bogus, 0, "ack-while-pending:"+fwhat)
+				r.CountFault("clientack-while-pending/"+fwhat, 1)
+				time.Sleep(time.Duration(1+r.Intn("ack", 30)) * time.Millisecond)
+			}
+		}
 	}
 	r.Sample = append(r.Sample, fmt.Sprintf("hellos=%d acks=%d answered=%d", nHello, nAck, len(o.saFor)))
 	srv.Close()
